@@ -40,6 +40,7 @@ type LoopContract struct {
 	Modifies   []*Clause
 	ExitDo     []*Clause // ghost updates applied when the loop is left through its header
 	EntryDo    []*Clause // ghost updates applied when the loop is entered (before the invariants are checked)
+	EntryAsserts []*Clause // checked when the loop is entered; not an invariant (nothing is assumed at the head)
 	Used       bool
 }
 
@@ -646,6 +647,9 @@ func (cs *ContractSet) parseFile(file, pkgPath string) error {
 					if kind == "exit-do" || kind == "entry-do" {
 						kind = "do"
 					}
+					if kind == "entry-assert" {
+						kind = "invariant"
+					}
 					c, err := mk(kind, strings.TrimSpace(f[1]), l)
 					if err != nil {
 						return err
@@ -658,6 +662,8 @@ func (cs *ContractSet) parseFile(file, pkgPath string) error {
 						lc.ExitDo = append(lc.ExitDo, c)
 					} else if f[0] == "entry-do" {
 						lc.EntryDo = append(lc.EntryDo, c)
+					} else if f[0] == "entry-assert" {
+						lc.EntryAsserts = append(lc.EntryAsserts, c)
 					} else {
 						return fmt.Errorf("%s:%d: bad loop clause kind %s", l.file, l.line, f[0])
 					}
